@@ -226,6 +226,24 @@ pub fn families(quick: bool) -> Vec<Family> {
     v.push(Family { name: "lark-corpus-mutations", total: lm_n as u64, gen: Box::new(move |i| Input::Lark(lm[i as usize].clone())) });
     let jm = json_mutations();
     v.push(Family { name: "json-corpus-mutations", total: jm.len() as u64, gen: Box::new(move |i| Input::Json(jm[i as usize].clone())) });
+    // the well-formed corpus (and the parametric reference grammars), driven deeper than the fuzzed families:
+    // arithmetic on parameters and counters only goes wrong after several commits
+    let mut deep: Vec<Input> = vec![];
+    for it in corpus::all_items() {
+        deep.push(match it.g {
+            GrammarSpec::Lark(s) => Input::Lark(s),
+            GrammarSpec::Regex(s) => Input::Regex(s),
+            GrammarSpec::Json(v) => Input::Json(v),
+        });
+    }
+    for p in crate::refs::cfg_earley::parametric_grammars() {
+        deep.push(Input::Lark(p.lark));
+    }
+    v.push(Family { name: "corpus-deep", total: deep.len() as u64, gen: Box::new(move |i| match &deep[i as usize] {
+        Input::Lark(s) => Input::Lark(s.clone()),
+        Input::Regex(s) => Input::Regex(s.clone()),
+        Input::Json(x) => Input::Json(x.clone()),
+    }) });
     // size ladders
     let mut ladders: Vec<Input> = vec![];
     let sizes: Vec<usize> = if quick { vec![10, 100, 1000, 10_000] } else { vec![10, 100, 1000, 10_000, 100_000] };
@@ -432,7 +450,7 @@ fn drive_input(f: &Factory, inp: &Input, idx: u64, fam: &str, tight: bool) -> (u
         }
     }
     let mut bad = None;
-    let r = guarded(|| rec(&m, if tight { 2 } else { 3 }, 0, &mut calls, &mut bad));
+    let r = guarded(|| rec(&m, if fam == "corpus-deep" { 6 } else if tight { 2 } else { 3 }, 0, &mut calls, &mut bad));
     if let Err(p) = r {
         note("escaped-panic-call", &p);
     }
@@ -812,12 +830,29 @@ pub fn run(ctx: &Ctx) -> Coverage {
                 let fams2 = families(tier == "quick");
                 let inp = fams2.iter().find(|f| f.name == fam.as_str()).map(|f| (f.gen)(culprit).show()).unwrap_or_default();
                 let short: String = inp.chars().take(300).collect();
-                ctx.violation(Violation {
+                let hang = r.status == "timeout" || r.status == "cpu-limit";
+                let v = Violation {
                     check: "child-died".into(),
-                    class: if r.status == "timeout" || r.status == "cpu-limit" { "robustness-hang".into() } else { "robustness-process-abort".into() },
-                    signature: format!("{}|{}", if r.status == "timeout" || r.status == "cpu-limit" { "hang" } else { r.status.as_str() }, short),
+                    class: if hang { "robustness-hang".into() } else { "robustness-process-abort".into() },
+                    signature: format!("{}|{}", if hang { "hang" } else { r.status.as_str() }, short),
                     detail: json!({"kind": "robustness", "family": fam, "index": culprit, "input": short, "input_len": inp.len(), "child_status": r.status, "overflow_checked_build": is_ovf, "tight_limits": tight}),
-                });
+                };
+                // a CPU-limit hit that is not a recorded finding is confirmed before it becomes a verdict: the
+                // culprit runs again, alone in its child, with three times the CPU limit (CPU time is inflated
+                // a few-fold when sixteen children and two builds share the caches)
+                let confirmed = if hang && !ctx.is_known(&v) {
+                    let again = run_chunk(bin, fam, culprit, culprit + 1, tier, *tight, timeout * 3);
+                    ctx.count("hang_verdicts_rechecked", 1);
+                    if again.done {
+                        ctx.count("hang_verdicts_not_confirmed", 1);
+                    }
+                    !again.done
+                } else {
+                    true
+                };
+                if confirmed {
+                    ctx.violation(v);
+                }
                 if culprit + 1 < b {
                     pending.push((culprit + 1, b));
                 }
@@ -843,6 +878,6 @@ pub fn run(ctx: &Ctx) -> Coverage {
         ctx.machinery_error("vacuous run: no engine built");
     }
     Coverage::StateGraph {
-        rule: "every string of <= 3 (thorough: 4) lexical fragments from a 28-entry Lark alphabet (raw and after 'start:'), a 26-entry regex alphabet, every object of <= 2 (thorough: 3) keyword/value pairs from a 41-entry JSON-schema menu (flat and nested), every single-point mutation of every corpus Lark grammar and JSON schema (also under tight limits), and size ladders (nesting to 1e4/1e5, counts to 2^64, multipleOf products, long literals, $ref chains); each input is compiled in a child process with wall-clock and address-space limits and, when it builds, driven through every sequence of <= 3 legal calls (mask, validate, commit of 3 mask tokens, rollback); the whole enumeration also runs in a build with overflow checks; plus, in-process on every corpus grammar x {byte, multi-byte} vocabulary with default slices, every legal call sequence of the shape <= 3 (thorough: 4) commits, one rollback of 1 or 2 tokens, <= 3 (4) further commits, with <= 4 (5) mask tokens per position (EOS whenever allowed) — no internal panic, no refusal of a mask token; states = inputs, transitions = legal API calls".into(),
+        rule: "every string of <= 3 (thorough: 4) lexical fragments from a 28-entry Lark alphabet (raw and after 'start:'), a 26-entry regex alphabet, every object of <= 2 (thorough: 3) keyword/value pairs from a 41-entry JSON-schema menu (flat and nested), every single-point mutation of every corpus Lark grammar and JSON schema (also under tight limits), the well-formed corpus and the parametric reference grammars driven to depth 6 (family corpus-deep), and size ladders (nesting to 1e4/1e5, counts to 2^64, multipleOf products, long literals, $ref chains); each input is compiled in a child process with wall-clock and address-space limits and, when it builds, driven through every sequence of <= 3 legal calls (mask, validate, commit of 3 mask tokens, rollback); the whole enumeration also runs in a build with overflow checks; plus, in-process on every corpus grammar x {byte, multi-byte} vocabulary with default slices, every legal call sequence of the shape <= 3 (thorough: 4) commits, one rollback of 1 or 2 tokens, <= 3 (4) further commits, with <= 4 (5) mask tokens per position (EOS whenever allowed) — no internal panic, no refusal of a mask token; states = inputs, transitions = legal API calls".into(),
     }
 }
